@@ -109,7 +109,7 @@ Definition parse (op : list tok) : cmd :=
                     (if Z.eqb wp 1 then Some w else None) (Z.eqb bk 1))
       | _ => CmdBad end
     else if name =? "remove" then
-      match args with [TN c; TN a] => CmdOp (ORemove (znat c) (zN a)) | _ => CmdBad end
+      match args with [TN c; TN id; TN a] => CmdOp (ORemove (znat c) (zN id) (zN a)) | _ => CmdBad end
     else if name =? "policy" then
       match args with
       | [TN c; TS k; TN m; TN size] =>
@@ -192,8 +192,8 @@ Definition observe (s : state) (o : op) (s' : state) : list tok :=
   | OAdd c _ _ _ _ _ =>
     [tn_bool (Nat.ltb (List.length (s_heap s)) (List.length (s_heap s')));
      tnat (List.length (c_list (cget s' c)))] ++ view s' c
-  | ORemove c a =>
-    let ids := snd (remove_backend s c a) in [tnat (List.length ids)] ++ map tN ids ++ view s' c
+  | ORemove c id a =>
+    let ids := snd (remove_backend s c id a) in [tnat (List.length ids)] ++ map tN ids ++ view s' c
   | OPolicy c _ _ _ => view s' c
   | OHealth c a ok thr =>
     match find_backend s c a with
